@@ -2,7 +2,7 @@
 (* one initial state per (protocol, pair of secrets): TLC evaluates the statistical distance of the two views *)
 EXTENDS Masking
 VARIABLES proto, a1, a2
-Protos == {"trunc", "lsb", "tobits", "sgn", "mod", "zero"}
+Protos == {"trunc", "lsb", "tobits", "sgn", "mod", "zero", "convert"}
 Init == /\ proto \in Protos
         /\ a1 \in (IF proto = "zero" THEN 1..(P - 1) ELSE Secrets)
         /\ a2 \in (IF proto = "zero" THEN 1..(P - 1) ELSE Secrets)
@@ -14,5 +14,6 @@ LsbOK == proto = "lsb" => Pair(LsbView, LsbMasks)
 ToBitsOK == proto = "tobits" => Pair(ToBitsView, ToBitsMasks)
 SgnOK == proto = "sgn" => Pair(SgnView, SgnMasks)
 ModOK == proto = "mod" => Pair(ModView, ModMasks)
+ConvOK == proto = "convert" => Pair(ConvView, ConvMasks)
 ZeroOK == proto = "zero" => SD2M(ZeroView, ZeroMasks, a1, a2) = 0
 =========================================================================
